@@ -9,7 +9,8 @@ from harness.props import c06, c16, c01
 ID = "C02"
 RULE = ("(rulebook, ordering, vendor, ACL text(s), old, new): rulebooks/configs as in C01; ACLs over the same vocabulary "
         "(nesting<=3, *, ~, %global, %cant_delete=0/1, %prio, 1-3 generator ACLs merged with %generator_names tagging), so "
-        "that configs contain covered rows, uncovered rows next to them and rows covered only in negated form; non-trivial = "
+        "that configs contain covered rows, uncovered rows next to them and rows covered only in negated form;" +
+        rbgen.SMALL_RULE % (", under eight small ACLs", " (a seed-rotated quarter per run)") + " non-trivial = "
         "the patch has >=2 commands and old has >=1 covered and >=1 uncovered row; distinct = distinct case")
 TRUSTED_BASE = [
     "Lean 4.33 kernel; axioms per theorem listed (subset of propext, Classical.choice, Quot.sound)",
@@ -25,9 +26,21 @@ def setup_worker():
     c16.setup_worker()
 
 
+SMALL_ACLS = [["a *\n    x *\n"], ["a *\n"], ["a 1\n    x *\n", "b\n"], ["a *  %cant_delete=1\n    x *\n"],
+              ["a *\n    x 1  %cant_delete=1\n"], ["a *\n    x *  %global\n", "b  %cant_delete=1\n"], ["~  %global\n"],
+              ["a *\n    x 1\n", "a 2\n    x *\n"]]
+
+
 def shards(tier, seed):
     n = 120 if tier == "quick" else 12000
-    return [dict(seed=seed * 1000 + i, n=n) for i in range(16)]
+    out = [dict(seed=seed * 1000 + i, n=n) for i in range(16)]
+    # the small space of rbgen under eight small ACLs (nested, partial, cant_delete, %global, two generators)
+    if tier == "quick":
+        out += [dict(kind="small", part=(seed * 2 + i) % 4096, parts=4096) for i in range(2)]
+    else:
+        # a quarter of the 2.6M cases per run, rotated by the seed
+        out += [dict(kind="small", part=(seed * 64 + i) % 256, parts=256) for i in range(64)]
+    return out
 
 
 def acl_lines(rng, pre, prows, depth=0):
@@ -94,6 +107,15 @@ def interface_case(rng, c, pre):
 
 
 def gen(desc):
+    if desc.get("kind") == "small":
+        k = 0
+        for c in rbgen.small_cases(0, 1, vendors=("huawei", "cisco", "arista")):
+            for acl in SMALL_ACLS:
+                if k % desc["parts"] == desc["part"]:
+                    c2 = dict(c, acl_texts=list(acl), tagged=len(acl) > 1)
+                    yield c2
+                k += 1
+        return
     rng = random.Random(desc["seed"])
     for _ in range(desc["n"]):
         c = rbgen.gen_case(rng, one_per_key=True)
@@ -342,20 +364,31 @@ def oracle(case, r):
             sig = "cant-delete-row-removed"
             # the row belongs to a %rewrite group of its block and the patch re-sends that group (a command for another
             # %rewrite row of the same block): the device replaces the group's content, the protected row is not re-sent
+            # (the row itself, or an ancestor whose content the device replaces when the ancestor is re-sent)
             from annet.annlib import patching as _p
-            _rules, _ok = rules, True
-            for k in path[:-1]:
-                _m, _rules = _p._match_row_to_rules(k, _rules)
+            _rules = rules
+            for i, k in enumerate(path):
+                _m, _next = _p._match_row_to_rules(k, _rules)
                 if not _m:
-                    _ok = False
                     break
-            if _ok:
-                _m, _ = _p._match_row_to_rules(path[-1], _rules)
-                if _m and _m["attrs"]["logic"].__name__ == "rewrite" and any(
-                        len(pp) == len(path) and list(pp[:-1]) == list(path[:-1]) and pp[-1] != path[-1] and
+                last = i == len(path) - 1
+                if _m["attrs"]["logic"].__name__ == "rewrite" and any(
+                        len(pp) == i + 1 and list(pp[:-1]) == list(path[:i]) and (not last or pp[-1] != path[-1]) and
                         (lambda mm: mm and mm["attrs"]["logic"].__name__ == "rewrite")(_p._match_row_to_rules(pp[-1], _rules)[0])
                         for pp in r["paths"]):
                     sig = "cant-delete-row-of-rewrite-group-dropped-when-group-resent"
+                    break
+                _rules = _next
+            # the generators themselves print the negation of the row (`no X`) and an ACL rule written in negated form
+            # covers that line directly: the negative line is theirs, sending it removes X
+            neg = rev + " " + path[-1]
+            parent_new = get(case["new"], path[:-1])
+            if sig == "cant-delete-row-removed" and parent_new is not None and any(rw == neg for rw, _ in parent_new) \
+                    and list(path[:-1]) + [neg] in [list(pp) for pp in r["paths"]]:
+                sig = "cant-delete-row-removed-by-generated-negation"
+            if sig == "cant-delete-row-removed" and "%order_reverse" in case["otext"] and \
+                    c01.removal_after_creation([list(pp) for pp in r["paths"]], rules, case["vendor"]):
+                sig = "order-reverse-pins-removal-after-creation"      # C01's recorded finding F01g, seen through clause (c)
             out.append(dict(sig=sig, what="cant_delete row %r is gone after the patch" % (path,)))
             break
     return out
